@@ -9,6 +9,9 @@ CHECKS = {
             "on a hand-written model of __add__/__mul__/__call__, tied to the code by exhaustive small trees + random trees on the real classes",
             "§6 C17", "Lean 4 theorems by induction on expression trees + differential correspondence with the real classes",
             "model of Python object identity by leaf numbers; typing generic aliases build plain composites"),
+    "C19": ("proof: Lean theorems over all lists / atoms objects / index lists in any order (reinsert_delete, atoms_reinsert_delete incl. names, dtypes, dict order; search_total, search_default_kept, search_label, search_same_label_iff for any component list, size filter and default array) on a model of ASE mask-delete/fancy-pick, reinsert_atoms and the labelling loop of search_molecules, tied to the code on real Atoms (all ordered subsets of 4 atoms + random) and random molecular boxes vs an independent union-find over minimum-image distances",
+            "§6 C19", "Lean 4 theorems (core only) by induction with position offsets + differential correspondence with real ASE/quansino objects",
+            "connected components are an input of the model (harness union-find, compared with the real function on every case); integer-valued entries; same-label iff needs negative defaults on non-admitted atoms (collision witness proved)"),
 }
 
 NOT_APPLICABLE = {}
